@@ -6,7 +6,8 @@ from props.C05 import finish_obligations
 from vlib import run as vrun, build, lean
 
 CANDIDATE_MODS = ["PrimitivModel.Props.C01.Sweep", "PrimitivModel.Props.C01.Move", "PrimitivModel.Props.C01.Arith",
-                  "PrimitivModel.Props.C01.Rules", "PrimitivModel.Props.C01.Chain", "PrimitivModel.Props.C01.ChainOps"]
+                  "PrimitivModel.Props.C01.Rules", "PrimitivModel.Props.C01.Chain", "PrimitivModel.Props.C01.ChainOps",
+                  "PrimitivModel.Props.C01.ChainSoftmax"]
 
 
 def existing(mods):
@@ -84,10 +85,15 @@ def run(chk):
         "broadcasting); every bilinear operator (bilin_curveLaw/bilin_adjointLaw: matmul, conv2d, multiply with batch broadcasting, "
         "multiplication by a random mask as in dropout); constant operators without arguments (const_laws: Input, Constant, "
         "zeros, ones, identity). "
-        "NOT INSTANTIATED: operators whose Jacobian depends on an argmax (max, min, max_pool2d: piecewise linear, not "
-        "differentiable at ties, see Arith.max_not_differentiable_at_tie), logsumexp / softmax / log_softmax / "
-        "softmax_cross_entropy / sparse_softmax_cross_entropy as single operators, divide and pow with batch broadcasting, "
-        "pown at x = 0 (known finding pown-bw-zero). "
+        "Props/C01/ChainSoftmax.lean, over a whole vector of n > 0 entries, at every argument value: logsumexp (lse_laws), "
+        "softmax (softmax_laws), log_softmax (logSoftmax_laws), dense softmax_cross_entropy with a constant target (sce_laws); "
+        "max and min over a whole vector at a point where the extremum is attained exactly once (max_laws, min_laws; the "
+        "backward rule routes gy to the entries equal to the extremum). "
+        "NOT INSTANTIATED: max / min at a tie (not differentiable there, see Arith.max_not_differentiable_at_tie), max_pool2d, "
+        "the softmax family and max / min along ONE axis of a higher-rank tensor (row-wise application; the laws are proved for "
+        "the whole-vector form only), softmax_cross_entropy with a non-constant (differentiated) target, "
+        "sparse_softmax_cross_entropy (integer labels), divide and pow with batch broadcasting, pown at x = 0 (known finding "
+        "pown-bw-zero). "
         "NOT PROVED: that the literal move/matmul/conv kernels of Model/KernelsMove.lean and Model/KernelsArith.lean are "
         "linOp ns ms A / bilinOp na nb m B for a specific matrix (their kernel-level adjoint theorems in Props/C01/Move.lean and "
         "Arith.lean stand beside the generic laws; sumMat, sliceMat, bcastMat, matmulCoef are given with sanity examples only)",
